@@ -9,6 +9,8 @@
   outer dispatcher sleeps on).  Checked on Mode.start.
 Relay / boolean result rules are the _run_handlers contract of C01.
 """
+import os
+
 import z3
 
 from pyvc.contract import ContractSet, LoopSpec
@@ -324,6 +326,171 @@ def build():
     return C
 
 
+QRP = "mpf/config_players/queue_relay_player.py"
+
+
+def relay_player_set(pid="C02q"):
+    """queue_relay_player: every relay holds its own queue event and listens with its own handler; finishing (or
+    clearing the context of) one relay releases exactly its own wait and removes exactly its own handler - relays of
+    other queue events and other contexts stay held"""
+    C = ContractSet(pid, "queue relay player: one wait and one handler per relay")
+    C.strings = False
+    C.cls("ConfigPlayer", fields={})
+    NR = common.bound(2, 3)
+
+    def reg(I):
+        return I.__dict__.setdefault("c02_relay_handlers", {})      # key name -> live Bool (python)
+
+    C.cls("QueueI", fields=dict(waiter=Bool))
+
+    def q_wait(I, env, a, k):
+        if I.ctx.branch(I.truth(I.read_field(env["self"].ref, "waiter"))):
+            I.raise_("AssertionError", "Double lock")
+        I.write_field(env["self"].ref, "waiter", VBool(True))
+        emit(I, "queue.wait", q=env["self"].ref)
+        return NONE
+
+    def q_clear(I, env, a, k):
+        if I.ctx.branch(z3.Not(I.truth(I.read_field(env["self"].ref, "waiter")))):
+            I.raise_("AssertionError", "Not waiting")
+        I.write_field(env["self"].ref, "waiter", VBool(False))
+        emit(I, "queue.clear", q=env["self"].ref)
+        return NONE
+    C.ext("QueueI.wait", model=q_wait, trusted_reason="QueuedEvent typestate (C02 main set)")
+    C.ext("QueueI.clear", model=q_clear, trusted_reason="QueuedEvent typestate (C02 main set)")
+    C.cls("EventManager", fields={})
+
+    def add_handler(I, env, a, k):
+        key = VOpaque("HKey", z3.Const(I.fresh_name("relay_key"), usort("HKey")))
+        reg(I)[str(key.t)] = True
+        emit(I, "add_handler", event=a[0], handler=a[1], priority=a[2] if len(a) > 2 else NONE, kwargs=dict(k), key=key)
+        return key
+
+    def remove_by_key(I, env, a, k):
+        key = I.force(a[0])
+        reg(I)[str(key.t)] = False
+        emit(I, "remove_by_key", key=key)
+        return NONE
+
+    def remove_handler(I, env, a, k):
+        # removes EVERY handler whose callback is this method
+        for kk in list(reg(I)):
+            reg(I)[kk] = False
+        emit(I, "remove_handler_all", method=a[0])
+        return NONE
+    C.ext("EventManager.add_handler", model=add_handler, trusted_reason="EventManager.add_handler (C01): fresh key")
+    C.ext("EventManager.remove_handler_by_key", model=remove_by_key,
+          trusted_reason="EventManager.remove_handler_by_key (C01): exactly the handler with this key")
+    C.ext("EventManager.remove_handler", model=remove_handler,
+          trusted_reason="EventManager.remove_handler (C01): every handler with this callback")
+    C.ext("EventManager.post", model=lambda I, env, a, k: (emit(I, "post", event=a[0], kwargs=dict(k)), NONE)[1],
+          trusted_reason="event posting (C01)")
+
+    def instances(I, name):
+        """relays in flight in the context at hand: queue -> handler key, all held and all listening"""
+        ents = []
+        for i in range(I.ctx.fork(NR + 1)):
+            q = I.fresh(ObjS("QueueI"), "%s.queue%d" % (name, i))
+            I.ctx.assume(I.truth(I.read_field(q.ref, "waiter")))
+            key = VOpaque("HKey", z3.Const("%s.key%d" % (name, i), usort("HKey")))
+            reg(I)[str(key.t)] = True
+            ents.append((q, key))
+        # one more relay in ANOTHER context (its instance dict is not the one handed out here)
+        oq = I.fresh(ObjS("QueueI"), name + ".other_context_queue")
+        I.ctx.assume(I.truth(I.read_field(oq.ref, "waiter")))
+        okey = VOpaque("HKey", z3.Const(name + ".other_context_key", usort("HKey")))
+        reg(I)[str(okey.t)] = True
+        I.__dict__["c02_relays"] = ents
+        I.__dict__["c02_other"] = (oq, okey)
+        return I.new_dict(tuple(ents), name)
+    C.cls("QueueRelayPlayer", file=QRP, bases=["ConfigPlayer"], fields=dict(
+        machine=ObjS("MachineController", events=ObjS("EventManager")), instances_=Init(instances)))
+    C.ext("QueueRelayPlayer._get_instance_dict", model=lambda I, env, a, k: I.read_field(env["self"].ref, "instances_"),
+          trusted_reason="ConfigPlayer._get_instance_dict: the per-context dict of this player (C07 clean-up)")
+
+    def reset_instances(I, env, a, k):
+        d = I.force(I.read_field(env["self"].ref, "instances_"))
+        I.set_container(d.ref, type(I.container(d.ref))(()))
+        return NONE
+    C.ext("QueueRelayPlayer._reset_instance_dict", model=reset_instances,
+          trusted_reason="ConfigPlayer._reset_instance_dict: empties the per-context dict")
+
+    def others_untouched(I, *done):
+        """every relay other than the finished ones is still held and still listening (also the one of the other
+        context); the finished ones are released exactly once and no longer listen"""
+        done_refs = [I.force(d).ref for d in done]
+        rel = list(I.__dict__.get("c02_relays", [])) + [I.__dict__["c02_other"]]
+        clears = [e.args["q"] for e in events_named(I, "queue.clear")]
+        cs = []
+        for q, key in rel:
+            live = reg(I).get(str(key.t), False)
+            held = I.truth(I.read_field(q.ref, "waiter"))
+            if q.ref in done_refs:
+                cs.append(z3.And(z3.Not(held), z3.BoolVal(not live and clears.count(q.ref) == 1)))
+            else:
+                cs.append(z3.And(held, z3.BoolVal(bool(live) and clears.count(q.ref) == 0)))
+        return VBool(z3.And(cs))
+    C.helpers["only_these_released"] = others_untouched
+
+    def all_of_context_released(I):
+        rel = list(I.__dict__.get("c02_relays", []))
+        return others_untouched(I, *[q for q, _ in rel])
+    C.helpers["context_released"] = all_of_context_released
+    C.trace_helpers = {"only_these_released", "context_released", "relay_started"}
+
+    def pick_queue(I, name):
+        rel = I.__dict__.get("c02_relays")
+        if rel is None:
+            I.force(I.read_field(I.frames[0].env["self"].ref, "instances_"))
+            rel = I.__dict__["c02_relays"]
+        if not rel:
+            return I.__dict__["c02_other"][0]         # a queue that is not in this context's dict
+        return rel[I.ctx.fork(len(rel))][0]
+    C.fn("QueueRelayPlayer._callback", params=dict(queue=Init(pick_queue), context=Str, kwargs=Opaque("Kwargs")),
+         ensures=[("QR1: the wait_for event of ONE relay releases exactly that relay's queue event and removes exactly "
+                   "its handler; every other relay in flight - same or other context - stays held and keeps listening",
+                   "only_these_released(queue) and queue not in self.instances_")],
+         modifies=["self.instances_", "queue.waiter"], raises={"AssertionError": "queue not in self.instances_"},
+         skip_frame=True, bounded="BOUNDED: at most %d relays in flight in the context, one in another context" % NR)
+    C.fn("QueueRelayPlayer.clear_context", params=dict(context=Str),
+         loops={0: LoopSpec(invariant=[], unroll=True)},
+         ensures=[("QR2: clearing a context (its mode stopped) releases and forgets exactly the relays of that context; "
+                   "relays of other contexts stay held and keep listening", "context_released() and "
+                                                                            "len(self.instances_) == 0")],
+         modifies=["self.instances_"], raises={}, skip_frame=True,
+         bounded="BOUNDED: at most %d relays in flight in the context, one in another context" % NR)
+
+    def relay_started(I, queue):
+        q = I.force(queue).ref
+        adds = events_named(I, "add_handler")
+        waits = [e for e in events_named(I, "queue.wait") if e.args["q"] is q]
+        if len(adds) != 1 or len(waits) != 1:
+            return VBool(False)
+        this = I.frames[0].env["self"].ref
+        d = {}
+        for kq, v in I.container(I.force(I.read_field(this, "instances_")).ref).entries:
+            kr = I.force(kq).ref if isinstance(kq, Val) else kq
+            d[id(kr)] = v
+        key = adds[0].args["key"]
+        ok = id(q) in d and I.force(d[id(q)]).t.eq(key.t)
+        h = I.force(adds[0].args["handler"])
+        kw = adds[0].args["kwargs"]
+        ok2 = ok and h.tag == "fn" and h.name == "_callback" and "queue" in kw and I.force(kw["queue"]).ref is q
+        return VBool(bool(ok2))
+    C.helpers["relay_started"] = relay_started
+    SET = Rec(priority=Int, wait_for=Str, post=Str, pass_args=Bool, args=Const(None))
+    C.fn("QueueRelayPlayer.play", params=dict(
+        settings=SET, context=Str, calling_context=Str, priority=Int,
+        kwargs=Init(lambda I, n: I.new_dict((("queue", I.fresh(ObjS("QueueI"), n + "[queue]")),)))),
+         requires=[("the queue event handed in is not held yet by this handler", "not kwargs['queue'].waiter")],
+         lets={"q0": "kwargs['queue']"},
+         ensures=[("QR0: a relay holds the queue event it was handed, listens for its wait_for event with its own handler "
+                   "(which knows that queue) and remembers the handler's key under that queue", "relay_started(q0)")],
+         modifies=["self.instances_", "kwargs.*", "kwargs['queue'].waiter"], raises={"AssertionError": True},
+         skip_frame=True, bounded="BOUNDED: at most %d relays already in flight" % NR)
+    return C
+
+
 def build_extra():
     """relay / boolean dispatch and the priority order of the handler list are C01's contracts on _run_handlers and
     add_handler: they are verified here too (restricted copy of C01's set)"""
@@ -331,4 +498,7 @@ def build_extra():
     c01 = C01.build()
     c01.pid = "C02b"
     c01.only_verify = ["EventManager._run_handlers", "EventManager.add_handler"]
-    return [c01]
+    # queue events held by other parts of the core: the ball_ending event is held until every game mode has stopped
+    # (C11's ModeController contracts), queue_relay_player holds and releases one queue event per relay
+    from . import C11
+    return [c01, C11.mode_controller_set("C02m"), relay_player_set()]
